@@ -3,7 +3,7 @@ from __future__ import annotations
 
 import ast
 
-from ..core import call_name, kwarg, norm
+from ..core import call_name, ctext, kwarg, norm
 from ..norm import single_defs
 from ..util import assigned_targets, const_num, parent_map
 
@@ -47,7 +47,7 @@ def _a1(ctx):
     tdefs = [(s, v) for s in js.stmts() for t, v, _ in assigned_targets(s) if isinstance(t, ast.Name) and t.id == "thresholds"]
     ctx.require(len(tdefs) == 2, R, f"thresholds definitions {len(tdefs)}")
     filt = tdefs[1][1]
-    ok = isinstance(filt, ast.ListComp) and len(filt.generators[0].ifs) == 1 and norm(filt.generators[0].ifs[0]) in ("t > spec.mapper.objective_tolerance",)
+    ok = isinstance(filt, ast.ListComp) and len(filt.generators[0].ifs) == 1 and norm(filt.generators[0].ifs[0]) in (ctext("t > spec.mapper.objective_tolerance"),)
     ctx.check(ok, R, js, tdefs[1][0], "earlier thresholds are not restricted to values strictly above the configured objective tolerance", "earlier thresholds > objective_tolerance")
     app = [c for c in js.calls("append") if norm(c.func.value) == "thresholds"]
     ok = len(app) == 1 and norm(app[0].args[0]) == "spec.mapper.objective_tolerance" and app[0].lineno > tdefs[1][0].lineno
@@ -128,7 +128,7 @@ def _a3(ctx):
             if isinstance(q, ast.If):
                 conds.append(norm(q.test))
             q = pm.get(id(q))
-        if "maxvalue > 1" in conds and "is_reservation_col(c)" in conds:
+        if ctext("maxvalue > 1") in conds and "is_reservation_col(c)" in conds:
             ok = True
     ctx.check(ok, R, ms, scan, "the scan does not break exactly when a reservation column's maximum exceeds 1", "break iff some reservation column max > 1")
     mv = [v for s in ast.walk(scan) if isinstance(s, ast.Assign) for t, v, _ in assigned_targets(s) if norm(t) == "maxvalue"]
@@ -205,7 +205,8 @@ def _a6(ctx):
         else:
             ctx.bad(R, g, a, f"a memory is removed from capacity tracking under {conds}: neither `usage <= 1` nor `not must_track`")
     us = [s for s in g.stmts() if isinstance(s, ast.AugAssign) and norm(s.target) == "usage"]
-    ok = len(us) == 1 and isinstance(us[0].op, ast.Add) and norm(us[0].value) == "tensor_sizes[tensor] * effective_bpv / mem.size"
+    from ..norm import Normaliser
+    ok = len(us) == 1 and isinstance(us[0].op, ast.Add) and Normaliser().poly(us[0].value) == Normaliser().poly(ast.parse("tensor_sizes[tensor] * effective_bpv / mem.size", mode="eval").body)
     ctx.check(ok, R, g, us[0] if us else g.node, "the usage bound is not the sum over tensors of size x bits per value / memory size", "usage = sum of tensor bits / size")
     ctx.floor(R, 6)
 
